@@ -87,7 +87,10 @@ fn enum_small(shard: usize, nshards: usize, _t: Tier, emit: &mut dyn FnMut(&[u8]
 
 fn oracle_random(case: &[u8], obs: &mut Obs) -> Result<(), String> {
     let mut c = Choice::new(case);
+    // (a minority of tables is much larger than 4 KiB, with very long NUL-free runs)
+    let huge = c.u8() >= 246;
     let len = match c.below(8) {
+        _ if huge => 4097 + c.below(200_000) as usize,
         0 => c.below(4) as usize,
         1 | 2 | 3 => c.below(40) as usize,
         4 | 5 => c.below(300) as usize,
@@ -111,6 +114,26 @@ fn oracle_random(case: &[u8], obs: &mut Obs) -> Result<(), String> {
             *b = [1u8, 1, 0x7f, 0x80, 0xff, b'a', 2, 0xfe][(*b % 8) as usize];
         }
     }
+    if huge {
+        // no NULs except a handful at chosen places: runs of 4096, 65535, 65536 ... bytes before a terminator
+        for b in t.iter_mut() {
+            if *b == 0 {
+                *b = 0x41;
+            }
+        }
+        for _ in 0..1 + c.below(4) {
+            let at = match c.below(6) {
+                0 => len - 1,
+                1 => 65535 + c.below(3) as usize,
+                2 => 4095 + c.below(3) as usize,
+                3 => (c.below(48) as usize) * 4096 + c.below(3) as usize,
+                _ => c.below(len as u64) as usize,
+            };
+            if at < len {
+                t[at] = 0;
+            }
+        }
+    }
     // first few bytes and the final byte directly from the choice sequence
     for i in 0..len.min(6) {
         if c.chance(100) {
@@ -120,13 +143,14 @@ fn oracle_random(case: &[u8], obs: &mut Obs) -> Result<(), String> {
     if len > 0 && c.chance(128) {
         t[len - 1] = if c.bool() { 0 } else { c.u8() };
     }
-    let off = match c.below(10) {
+    let off = match c.below(11) {
         0 => len.saturating_sub(1),
         1 => len,
         2 => len + 1,
         3 => usize::MAX - c.below(3) as usize,
         4 => *c.pick(BOUNDARY) as usize,
         5 => 0,
+        8 => c.below(10) as usize,
         6 => c.val(64) as usize,
         7 => ((1 + c.below(5)) << 32) as usize | c.below(len as u64 + 1) as usize,
         _ => c.below(len as u64 + 2) as usize,
